@@ -19,7 +19,7 @@ Record cli_obs := mkCliObs {
   c_sentinel_ok : option bool; c_rows : list (N * N * json * option f64); c_rows_ok : bool;
   c_bestfile : option json; c_summary : option (f64 * N * N); c_survivors : nat; c_panicked : bool;
   c_timed_out : bool; c_verbose_same : bool; c_has_failed_stdout : bool;
-  c_wall_ms : N; c_limit_ms : option N; c_all_fast_ok : bool; c_guess_json : option json; c_failed_to_reap : bool; c_deadline_ms : option N }.
+  c_wall_ms : N; c_limit_ms : option N; c_all_fast_ok : bool; c_guess_json : option json; c_failed_to_reap : bool; c_deadline_ms : option N; c_sigint : bool }.
 
 (** the spec files of tools/clistream.py *)
 Definition cli_spec (i : nat) : spec :=
@@ -162,7 +162,13 @@ Definition mon_C04 (o : cli_obs) : bool :=
   match c_limit_ms o with
   | Some l => negb (c_timed_out o) && (pre_error o || N.leb (c_wall_ms o) (l + 4000))
   | None => true
-  end.
+  end &&
+  (* an interrupt while long evaluations are in flight (the first, fast one was accepted): the run is over
+     within the deadline counted from the interrupt, reports that result, and has started no more than
+     the evaluations that were in flight *)
+  (negb (c_sigint o) ||
+   (within_deadline o && exit_zero o && Nat.eqb (c_stdout_lines o) 1 &&
+    Nat.leb (n_started o) (S (N.to_nat (nc_of o))))).
 
 (** ** C06 through the binary: a child that fails (non-zero exit, killed by a signal, output that
     is not a result) ends the run with an error, whatever it printed before *)
